@@ -169,7 +169,8 @@ def run_keep(ctx: Ctx) -> RuleResult:
     # producers of filter_out
     pat = repo.func('lark.load_grammar:PrepareAnonTerminals.pattern')
     pparam = pat.positional_names()[0] if pat.positional_names() else 'p'
-    fo = find_pat(pat.body_nodes(), '$fo = False if $$cond else isinstance($p, PatternStr)', {'p': pparam})
+    from ..exprs import match_cond
+    fo = match_cond(pat.body_nodes(), '$$cond', 'False', 'isinstance($p, PatternStr)', {'p': pparam}, target_src='$fo')
     okp = len(fo) == 1 and 'keep_all_tokens' in fo[0][1]['$$cond'] and \
         has_pat(pat.body_nodes(), 'return Terminal($$n, filter_out=$fo)', {'fo': fo[0][1]['fo']})
     res.ob('%s %s' % (pat.loc(), pat.qual), 'anonymous terminals: filtered iff they are string literals (never under !)', okp)
